@@ -95,11 +95,16 @@ def gen_tables():
     if p.returncode != 0:
         raise BuildError("table extraction", p.stdout)
     ch = write_if_changed(os.path.join(COQ, "gen", "Tables.v"), p.stdout)
-    p = sh([exe, "-footprint", REPO], timeout=300, check=False, env=GOENV)
+    p = sh([exe, "-footprint", REPO], timeout=300, check=False, env=GOENV, cwd=os.path.join(VERIF, "harness"))
     if p.returncode != 0:
         raise BuildError("footprint extraction", p.stdout)
     ch2 = write_if_changed(os.path.join(COQ, "gen", "Footprint.v"), p.stdout)
-    return ch or ch2
+    # the Go-to-Gallina translator: the pure functions of color.go, encode/buffer.go, decode/buffer.go, ivg.go ...
+    p = sh([exe, "-gosrc", REPO], timeout=300, check=False, env=GOENV, cwd=os.path.join(VERIF, "harness"))
+    if p.returncode != 0:
+        raise BuildError("source translation (harness -gosrc)", p.stdout)
+    ch3 = write_if_changed(os.path.join(COQ, "gen", "GoSrc.v"), p.stdout)
+    return ch or ch2 or ch3
 
 
 def coq_files():
@@ -126,7 +131,8 @@ def build_driver():
     """Extracts the model to OCaml and builds the driver, if the model changed."""
     od = os.path.join(BUILD, "ocaml")
     os.makedirs(od, exist_ok=True)
-    src = [os.path.join(COQ, f) for f in coq_files() if f.startswith(("model/", "gen/", "spec/"))]
+    src = [os.path.join(COQ, f) for f in coq_files() if f.startswith(("model/", "gen/", "spec/"))
+           and not f.endswith(("GoSrc.v", "GoSem.v"))]   # the translated source is not extracted
     src += [os.path.join(COQ, "extract", "Extract.v"),
             os.path.join(VERIF, "ocaml", "util.ml"), os.path.join(VERIF, "ocaml", "script.ml"), os.path.join(VERIF, "ocaml", "driver.ml")]
     h = hashlib.sha256()
